@@ -125,6 +125,8 @@ def series_monitor(m, payload):
             # the injection temperature the reservoir model was run with is the input's: flash and ORC plants may lower wellbores.Tinj afterwards
             # (their own reinjection temperature), which must not enter the closed-form reservoir profile
             Tinj = float(inp['Injection Temperature']) if 'Injection Temperature' in inp else float(V(wb, 'Tinj'))
+            if 'Injection Temperature' in inp:
+                Tinj += float(inp.get('Injection Wellbore Temperature Gain') or 0)      # what reaches the reservoir: injection temperature + gain on the way down
             if Trock >= Tinj:
                 over = np.where(Tres > Trock * (1 + 1e-12) + 1e-9)[0]
                 if over.size:
@@ -215,6 +217,11 @@ def plan(tier, seed):
                                 c2 = dict(ch)
                                 c2[name] = v
                                 P.append({'fam': fam, 'changes': c2})
+                                # ... and with the injected water warming up on its way down (the reservoir then sees injection temperature + gain:
+                                # the asymptote of the cooling curve moves, and with it every threshold expressed relative to it)
+                                c3 = dict(c2)
+                                c3['Injection Wellbore Temperature Gain'] = '6'
+                                P.append({'fam': fam, 'changes': c3})
                 # multi-segment end to end
                 P.append({'fam': fam, 'changes': {'Number of Segments': '3', 'Gradient 1': '60', 'Gradient 2': '30', 'Gradient 3': '80',
                                                   'Thickness 1': '1', 'Thickness 2': '1.5'}})
@@ -229,7 +236,7 @@ def run(tier, seed, budget=None):
         rule=('reservoir level: complete product of 1..3-segment layouts (gradients {1.01,30,50,120,500} C/km, thicknesses '
               '{0.01,0.5,2,99} km) x depth {0.1,1,3,7,15} km x Tmax {50,150,400,600} x Tsurf {-50,15,50} (quick trims the 3-segment '
               'Tsurf/Tmax axes), 4-segment layouts within 2 deviations of a base; end to end: reservoir models 1-4 x plant x shapes x '
-              'maximum drawdown {1 (given),0.5,0.1,0.02,0.005} x Ramey on/off x drawdown-parameter alphabets. Non-trivial = multi-segment or '
+              'maximum drawdown {1 (given),0.5,0.1,0.02,0.005} x Ramey on/off x drawdown-parameter alphabets x injection wellbore temperature gain {0, 6}. Non-trivial = multi-segment or '
               'capped (reservoir level) / produced temperature varies (end to end); redrill_positive counter reports how many runs redrilled'),
         assumptions=['magnitudes that trigger the unit heuristics (gradient <= 1, thickness >= 100) are outside the alphabet',
                      'monotonicity/upper-bound clauses are evaluated only where bottom-hole temperature >= injection temperature',
